@@ -113,9 +113,16 @@ def catalogue(tier):
     add("Identity", "identity", 1, (lambda: M.IdentityModulator()), (lambda: M.IdentityDemodulator()), component="Identity")
     # the same classes through the registry (create-by-name must behave like direct construction)
     for (nm, kw, kind, b, comp, cfg, g, u) in [("qpskmodulator", {}, "memoryless", 2, "QPSK", {"normalize": True, "via": "registry"}, True, True),
+                                                 ("bpskmodulator", {}, "memoryless", 1, "BPSK", {"complex_output": True, "via": "registry"}, False, True),
                                                  ("pskmodulator", {"order": 8}, "memoryless", 3, "PSK", {"order": 8, "gray": True, "via": "registry"}, True, True),
                                                  ("qammodulator", {"order": 16}, "memoryless", 4, "QAM", {"order": 16, "gray": True, "normalize": True, "via": "registry"}, True, True),
-                                                 ("pammodulator", {"order": 4}, "memoryless", 2, "PAM", {"order": 4, "gray": True, "normalize": True, "via": "registry"}, True, True)]:
+                                                 ("pammodulator", {"order": 4}, "memoryless", 2, "PAM", {"order": 4, "gray": True, "normalize": True, "via": "registry"}, True, True),
+                                                 ("dpskmodulator", {"order": 4, "gray_coding": False}, "dpsk", 2, "DPSK", {"order": 4, "gray": False, "via": "registry"}, False, True),
+                                                 ("dbpsk", {}, "dpsk", 1, "DPSK", {"order": 2, "gray": False, "alias": "dbpsk", "via": "registry"}, False, True),
+                                                 ("dqpsk", {}, "dpsk", 2, "DPSK", {"order": 4, "gray": True, "alias": "dqpsk", "via": "registry"}, True, True),
+                                                 ("oqpsk", {}, "oqpsk", 2, "OQPSK", {"normalize": True, "via": "registry"}, True, True),
+                                                 ("pi4qpsk", {}, "pi4", 2, "Pi4QPSK", {"gray": True, "via": "registry"}, True, True),
+                                                 ("identitymodulator", {}, "identity", 1, "Identity", {"via": "registry"}, False, False)]:
         dn = nm.replace("modulator", "demodulator")
         try:
             R.get_modulator(nm)
